@@ -105,6 +105,41 @@ reg('C10', 'model_checking',
     'against a trace oracle', 'E3-deviation-bounded-environment')
 
 
+reg('C13', 'exploration',
+    'Complete enumeration: every n x n matrix over {-1,0,1,2} for n<=3 '
+    '(262 144 3x3 matrices, exact singularity by integer determinant) with '
+    '1-3 right-hand sides, directly and through augmented_matrix; for '
+    'n=4..6 structured families (row permutations of a diagonally dominant '
+    'matrix, scaled permutation matrices, zero/tiny pivots in every '
+    'position, row scalings, 1x1 systems of any magnitude, singular '
+    'members); every helper against its definition; everything through the '
+    'Python source AND a transpiled+compiled build of the same helpers; all '
+    '15 625 symmetric 3x3 integer matrices x 3 magnitudes for the '
+    'eigen-decomposition (orthonormality, AV=Vd, transform_diag_inv).',
+    'Trusted: NumPy (cond, dot) and Fraction arithmetic as reference; '
+    'residual bound 64 n cond eps |b|; nothing is claimed off the lattice; '
+    'singular and numerically singular (cond>1e10) inputs are left open as '
+    'the statement leaves them.',
+    'bounded-exhaustive input enumeration against exact/NumPy reference',
+    'E4-bounded-exhaustive-enumeration')
+
+reg('C15', 'exploration',
+    'Full product lattice of left/right gas states over 6-12 decades '
+    '(quick: 5^4 x 5^2 x 3 gamma x 2 (niter,tol) = 93 750 states rotating '
+    'with the seed; thorough: 7^4 x 7^2 x 5 x 3 = 1.76 M states), each of '
+    'the 11 solvers evaluated on the state, its mirror image, through the '
+    'dispatcher and (contact solvers) on Galilean-shifted and scaled '
+    'copies; metamorphic oracles with tolerances conditioned on measured '
+    'quantities (1e-12 input sensitivity, largest intermediate magnitude, '
+    'extended-precision re-evaluation) so that cancellation is never '
+    'reported while a swapped side or sign is.',
+    'Trusted: the metamorphic relations themselves and an independent '
+    'implementation of the exact pressure function; pure-Python execution '
+    'of the solver source; nothing claimed between lattice points.',
+    'bounded-exhaustive lattice enumeration with metamorphic oracles',
+    'E4-bounded-exhaustive-enumeration')
+
+
 def main():
     props = [json.loads(l) for l in open(os.path.join(V, 'properties.jsonl'))]
     checks = []
